@@ -39,7 +39,14 @@ class C02(Spec):
              ("read-vs-cas", pre, (1, "get-safe a"), (2, "set-safe a 1 B"), tail),
              ("read-vs-increment", pre + ["C 1 set a 7"], (1, "get-safe a"), (2, "increment a 5"), tail),
              ("read-vs-remove", pre, (1, "get-safe a"), (2, "remove a"), tail),
-             ("plain-read-vs-set", pre, (1, "get a"), (2, "set a B"), tail)]
+             ("plain-read-vs-set", pre, (1, "get a"), (2, "set a B"), tail),
+             # an acknowledged remove against every kind of write, on a key that was never snapshotted and on one that was
+             ("remove-vs-increment", pre + ["C 1 set a 5"], (1, "remove a"), (2, "increment a"), tail),
+             ("remove-vs-plain-set", pre, (1, "remove a"), (2, "set a B"), tail),
+             ("remove-vs-stale-cas", pre + ["C 1 set a 1", "C 1 set a 2"], (1, "remove a"), (2, "set-safe a 1 B"), tail),
+             ("remove-vs-remove", pre, (1, "remove a"), (2, "remove a"), tail),
+             ("remove-vs-increment-persisted", pre + ["C 1 set a 5", "C 1 snapshot false", "SNAP"], (1, "remove a"), (2, "increment a"), tail),
+             ("remove-vs-plain-set-persisted", pre + ["C 1 snapshot false", "SNAP"], (1, "remove a"), (2, "set a B"), tail)]
         # compare-and-set is about replies and stored state; the order of notifications is C03's
         return sched.stage("C02", P, tier, seed, parts=("reply-A", "reply-B", "later-replies", "state"))
 
